@@ -24,6 +24,7 @@ ASSUME = [
 ]
 
 DOCS = [
+    "<root><a/><!--one--><!--two-->tail<b/><?p1?><?p2?>t2<!--three-->t3</root>",
     "<r><a>t<b/>u</a><!--c--><a k='1'><?p d?>x<c><d/>y</c></a>z</r>",
     "<r xmlns='urn:d'><a/><!--1--><b><c/>t<!--2--></b><?p x?></r>",
     "<r>a<!--c-->b<x><y/><!--d--><z>t</z></x><?q?>c</r>",
@@ -108,6 +109,18 @@ def mutating_observations(xml):
         t = tags[len(tags) // 2]
         det = t.detach(retain_child_nodes=False)
         out["detach"] = [trees.extract(d.root), trees.extract(det)]
+    # every node of every kind detached from a fresh document
+    with altered_default_filters():
+        count = len(nodes)
+    for i in range(1, min(count, 14)):
+        dd = Document(xml)
+        with altered_default_filters():
+            nn = [dd.root] + list(dd.root.iterate_descendants())
+        try:
+            det = nn[i].detach()
+            out[f"detach node {i}"] = [trees.extract(dd.root), trees.extract(det)]
+        except Exception as e:  # noqa: BLE001
+            out[f"detach node {i}"] = f"{type(e).__name__}"
     d2 = Document(xml)
     with altered_default_filters():
         n2 = [d2.root] + list(d2.root.iterate_descendants())
